@@ -810,8 +810,8 @@ def policy(repo, tier):
                               definite=any(d_ for _l, _t, d_ in bad))
         o["replay_hint"] = {"kind": "frame", "file": rel, "function": q}
         obls.append(volatile(o))
-    obls.append(ground_obligation("C06/package/frame#input-buffer-receivers-scanned", len(ib) >= 40,
-                                  f"{len(ib)} functions receive the caller's input buffer", "package"))
+    obls.append(ground_obligation("C06/package/frame#input-buffer-receivers-scanned", len(ib) >= 100 and len(held) >= 50,
+                                  f"{len(ib)} functions receive the caller's input buffer ({len(held)} of them methods of a class that holds it)", "package"))
     # ---- streams owned by a result are read from offset 0
     so, n_stream = FL.stream_obligations(mods, ib)
     obls.extend(so)
